@@ -1,6 +1,6 @@
 """C05 -- no variable is used out of scope, shadowed, or with its declaration skipped."""
 from rules import hirq, mirq, balance, visit
-from rules.core import walk, norm_path, AnchorMissing
+from rules.core import walk, norm_path, AnchorMissing, CannotAnalyse
 
 LEVEL = "other"
 EXPLANATION = (
@@ -407,6 +407,38 @@ def r8_state_writers(run, F):
                        "the reviewed writer %s.%s() in %s is gone" % (fld, m, fn))
 
 
+def r4d_prune_unconditional(run, F):
+    """Whether a declaration was skipped is a question about *which* variables were in scope at every goto, not how many: the set
+    recorded at a goto contains variables of nested blocks that are closed again at the label, so equal sizes do not mean equal
+    sets.  At a label that has gotos (the entry was found) in a block that has a layer, the variables of the layer are always
+    compared with the intersection, one by one.  Decided on the MIR of prune_at_label: with the `None` edges of its discriminant
+    switches taken away (no gotos for this label / no open layer), every path from the entry to a return passes through the
+    `filter` over the layer's variables; a guard, an early return or a fast path in front of it is reported."""
+    pl = F.body(AN + "prune_at_label")
+    cfg = mirq.CFG(pl)
+    cut = set(i for i, t in cfg.calls() if (mirq.call_target(t) or "").endswith("Iterator::filter"))
+    if not cut:
+        raise CannotAnalyse("R4-PRUNE-UNCONDITIONAL: prune_at_label selects the skipped variables in a form other than a `filter` over the layer")
+    none_edges = set()
+    for sw in mirq.discr_switches(cfg):
+        if 0 in sw["targets"]:
+            none_edges.add((sw["block"], sw["targets"][0]))
+        elif 1 in sw["targets"] and sw.get("otherwise") is not None:
+            none_edges.add((sw["block"], sw["otherwise"]))
+    seen, st = set(), [0]
+    while st:
+        x = st.pop()
+        if x in seen or x in cut:
+            continue
+        seen.add(x)
+        st.extend(y for y in cfg.succ[x] if (x, y) not in none_edges)
+    around = sorted(x for x in seen if x in cfg.exits())
+    run.ob("R4-PRUNE-UNCONDITIONAL", "prune_at_label", not around and bool(none_edges), F.where(pl),
+           "when the label has gotos and the block has a layer, every path through prune_at_label compares the layer's variables with the "
+           "intersection (%d `filter` call(s), %d None edge(s) removed); %d return block(s) can be reached around it: a fast path decides "
+           "by something other than set membership" % (len(cut), len(none_edges), len(around)))
+
+
 def check(run):
     F = run.facts("B")
     r1_balance(run, F)
@@ -415,6 +447,7 @@ def check(run):
     r4_pruning(run, F)
     r4b_identity_by_id(run, F)
     r4c_label_set_consumed(run, F)
+    r4d_prune_unconditional(run, F)
     r5_lookup(run, F)
     r6_codes(run, F)
     r7_visit(run, F)
